@@ -120,7 +120,8 @@ func lex(src string) ([]tok, error) {
 			i = k
 		case unicode.IsLetter(rune(c)) || c == '_' || c == '$':
 			j := i
-			for j < len(src) && (unicode.IsLetter(rune(src[j])) || unicode.IsDigit(rune(src[j])) || src[j] == '_' || src[j] == '$') {
+			for j < len(src) && (unicode.IsLetter(rune(src[j])) || unicode.IsDigit(rune(src[j])) || src[j] == '_' || src[j] == '$' ||
+				(src[j] == '@' && src[i] == '$' && j+1 < len(src) && unicode.IsDigit(rune(src[j+1])))) {
 				j++
 			}
 			out = append(out, tok{k: "id", s: src[i:j]})
